@@ -149,7 +149,12 @@ def rewrite(lv, dialect, spec, rnd):
             n += 1
         return "".join(x[0] for x in lv) if n else None
     if kind == "semicolons":
-        return "".join(x[0] for x in lv).rstrip() + rnd.choice([";", ";;", " ;\n;", ";\n"])
+        # extra semicolons after every statement of the script (not only the last one), then after the end of the text
+        extra = [";;", "; ;", ";\n;", ";;;", ";\n;\n", ";/* c */;", "; -- x\n;"]
+        for x in lv:
+            if x[1] == "statement_terminator" and x[0] == ";" and (spec.get("p") is None or rnd.random() < spec["p"]):
+                x[0] = rnd.choice(extra)
+        return "".join(x[0] for x in lv).rstrip() + rnd.choice([";", ";;", " ;\n;", ";\n", ""])
     raise ValueError(kind)
 
 
@@ -158,6 +163,8 @@ _SIMPLE = re.compile(r"^[\w<>.:|#$*\-/@ ]+$")
 
 def norm_col(s):
     """expression-named columns follow the expression's text: compare them modulo layout, comments and letter case"""
+    # an un-aliased sub-query is named after a hash of its text, which follows the layout: it is not a named column owner
+    s = re.sub(r"subquery#[0-9a-f]{8}", "subquery#anon", s)
     t = re.sub(r"/\*.*?\*/", "", s, flags=re.S)
     t = re.sub(r"--[^\n]*", "", t)
     t2 = re.sub(r"\s+", "", t)
